@@ -101,6 +101,7 @@ class SqlDriver:
         self.nstmt = 0
         self.fault_fired = False
         self.sql_log = None          # when a list: raw (statement, params) of every cursor execution
+        self._ro = None
 
     async def open(self, **config):
         import sqlalchemy as sa
@@ -147,6 +148,8 @@ class SqlDriver:
         return self
 
     async def close(self):
+        if self._ro is not None:
+            self._ro.close()
         await env.close(self.st)
         self.scratch.close()
 
@@ -157,10 +160,15 @@ class SqlDriver:
             await conn.execute(sa.text("DELETE FROM events"))
 
     async def dump(self):
-        d = await env.dump(self.st)
+        # a second, synchronous connection to the same database file (committed state only)
+        if self._ro is None:
+            import sqlite3
+            self._ro = sqlite3.connect(self.st.db.url.database, isolation_level=None)
+        evr = self._ro.execute("SELECT id, created_at, kind, pubkey, tags, sig, content FROM events").fetchall()
+        tgr = self._ro.execute("SELECT id, name, value FROM tags").fetchall()
         ev = [[bytes(r[0]), r[1], r[2], bytes(r[3]), (json.loads(r[4]) if isinstance(r[4], str) else r[4]), bytes(r[5]), r[6]]
-              for r in d["events"]]
-        tg = [[bytes(r[0]), r[1], r[2]] for r in d["tags"]]
+              for r in evr]
+        tg = [[bytes(r[0]), r[1], r[2]] for r in tgr]
         return canon_db({"events": ev, "tags": tg})
 
     async def add(self, ev, valid=True, can=True, fault=None):
@@ -218,7 +226,7 @@ WRITE_CLASS_PROPS = {
     "replace_keeps_older": "C09", "store_frame_broken": "C09", "delete_ineffective": "C08", "tags_incoherent": "C06",
     "non_atomic": "C07", "ack_true_not_stored": "C06", "valid_event_refused": "C06", "refused_left_trace": "C06",
     "resubmission_changed_store": "C06", "accepted_not_notified": "C06", "gc_not_exact": "C17",
-    "deleted_still_served": "C08",
+    "deleted_still_served": "C08", "notify_before_commit": "C07", "not_one_transaction": "C07",
 }
 
 
@@ -242,7 +250,8 @@ def run_histories(suite, histories, classes=None, nontrivial=None, compare_trace
             else:
                 ocases.append(("sqlm.oracle_write", {
                     "before": before, "after": o["db"], "ev": s["ev"], "now": NOW, "valid": s["valid"], "can": s["can"],
-                    "out": o["out"], "notified": ["notify"] in o["trace"], "faulted": o["faulted"]}))
+                    "out": o["out"], "notified": ["notify"] in o["trace"], "faulted": o["faulted"],
+                    "trace_kinds": [t[0] if t[0] in ("begin", "commit", "rollback", "notify") else "stmt" for t in o["trace"]]}))
             oidx.append((hi, si))
             before = o["db"]
     verdicts = [None] * len(ocases)
@@ -404,7 +413,7 @@ def c09_universe_sets(rng, tier):
         sets.append([ev(0, kind, t) for t in (10, 5, 20)])
     for kind in (30000, 39999):
         sets.append([ev(0, kind, t, dtag("a")) for t in (10, 5, 20)])
-    n = 25 if tier == "quick" else 250
+    n = 14 if tier == "quick" else 250
     for _ in range(n):
         kind = rng.choice([0, 3, 1, 10000, 19999, 20000, 30000, 39999, 40000])
         who = rng.randrange(2)
@@ -422,7 +431,7 @@ def c09_universe_sets(rng, tier):
 def c08_sets(rng, tier):
     """deletion events referencing own older/newer/same-second, foreign, unknown, non-hex, short, duplicate ids"""
     sets = []
-    n = 20 if tier == "quick" else 200
+    n = 12 if tier == "quick" else 200
     for _ in range(n):
         a, b = rng.sample(range(3), 2)
         own_old, own_new, own_same = ev(a, 1, 10, content="o"), ev(a, 1, 30, content="n"), ev(a, 1, 20, content="s")
@@ -450,7 +459,7 @@ def suites_c09(tier, seed):
     run_histories(s1, hs, classes={"replace_keeps_older", "store_frame_broken", "tags_incoherent"}, nontrivial=removed_something)
     s2 = Suite("corr:sql-submit/replace-random")
     s2.rule = "random histories (8-25 submissions) over 3 authors x 13 kinds x d-values x timestamp grid with resubmissions; as above"
-    n = 40 if tier == "quick" else 600
+    n = 25 if tier == "quick" else 600
     hs = [gen_history(rng, rng.randint(8, 25)) for _ in range(n)]
     run_histories(s2, hs, classes={"replace_keeps_older", "store_frame_broken", "tags_incoherent"}, nontrivial=removed_something)
     return [s1, s2]
@@ -544,7 +553,7 @@ def suites_c07(tier, seed):
               "statement index k of every event: OperationalError injected at the k-th cursor execution, dump compared with the "
               "model's prediction (= state before), history continued; BEGIN/COMMIT/ROLLBACK/notify order compared; "
               "non-trivial = a fault fired inside a transaction that had already executed a mutation")
-    n = 12 if tier == "quick" else 120
+    n = 7 if tier == "quick" else 120
     hs = []
     for _ in range(n):
         base = gen_history(rng, rng.randint(4, 9))
@@ -557,7 +566,7 @@ def suites_c07(tier, seed):
             for k in range(nst + 1):
                 h = [dict(s) for s in base[:i]] + [dict(base[i], fault=k)] + [dict(s) for s in base[i:]]
                 hs.append(h)
-    run_histories(s, hs, classes={"non_atomic", "tags_incoherent", "refused_left_trace"},
+    run_histories(s, hs, classes={"non_atomic", "tags_incoherent", "refused_left_trace", "notify_before_commit", "not_one_transaction"},
                   nontrivial=lambda h, io: any(o["faulted"] and len(o["trace"]) > 3 for o in io))
     return [s]
 
@@ -739,7 +748,7 @@ def run_reqs(suite_text, suite_answer, stores, classes=None, default_limit=5, ne
             lex_cases.append(post if post is not None else "\x00")
             pre_cases.append({"text": pre or "", "words": word_cps(pre or "")})
             req_cases.append({"db": dump, "filters": vfs, "default_limit": default_limit, "max_limit": ML})
-            or_cases.append({"store": dump, "answer": rows, "filters": vfs, "max_limit": default_limit})
+            or_cases.append({"store": dump, "answer": rows, "filters": vfs, "max_limit": default_limit, "import_max_limit": ML})
     builds = m("sqlm.build", build_cases)
     lexed = m("sqlm.lex", lex_cases)
     mlexed = m("sqlm.lex", [b["text"] for b in builds])
@@ -984,7 +993,7 @@ def suites_c11(tier, seed):
               "condition / a narrower window gives a subset; (3) a multi-valued condition gives the union of its single values; answers "
               "also compared with the model; non-trivial = the base answer is non-empty")
     stores, plan = [], []
-    for k in range(6 if tier == "quick" else 60):
+    for k in range(4 if tier == "quick" else 60):
         steps = base_store(rng, rng.randint(15, 30))
         fs = [gen_filter(rng, steps, [None]) for _ in range(12)]
         nb = []
@@ -1050,5 +1059,63 @@ def model_may(dump, rid, f):
     """may an added neighbour legitimately be in the answer? (it must not: neighbours are built non-matching) -> ask the spec"""
     vf = validate_filter(f)
     row = next(r for r in dump["events"] if r[0] == rid)
-    v = m("sqlm.oracle_req", [{"store": dump, "answer": [row], "filters": [vf], "max_limit": 10 ** 6}])[0]
+    v = m("sqlm.oracle_req", [{"store": dump, "answer": [row], "filters": [vf], "max_limit": 10 ** 6, "import_max_limit": 10 ** 6}])[0]
     return "sql_returns_nonmatching" not in v
+
+
+# ----------------------------------------------------------------------------- replay
+def replay(payload):
+    """Re-run a recorded failing input on the implementation and evaluate the executable statement."""
+    import logging
+    logging.disable(logging.CRITICAL)
+    v = payload["violation"]
+    case, cls = v["case"], v["cls"]
+    s = Suite("replay")
+    if "filter" in case:           # C11 relations
+        f = case["filter"]
+        others = [case[k] for k in ("narrowed",) if k in case] + list(case.get("singles", []))
+        nb = [step_add(e) for e in case.get("neighbours", [])]
+        stores = [(case["steps"], [[f]] + [[o] for o in others]), (case["steps"] + nb, [[f]])]
+        impl = run_reqs(None, s, stores, default_limit=1000, classes=set())
+        base = {r[0] for r in impl[0][0]["events"]}
+        a = {r[0] for r in impl[0][1][0][0]}
+        a2 = {r[0] for r in impl[1][1][0][0]} & base
+        bad = (cls == "sql_unrelated_data_changes_answer" and a2 != a)
+        if cls == "sql_not_monotone":
+            bad = not ({r[0] for r in impl[0][1][1][0]} <= a)
+        if cls == "sql_not_union_of_values":
+            u = set()
+            for res in impl[0][1][1:]:
+                u |= {r[0] for r in res[0]}
+            bad = u != a
+        print("replay:", "FAIL" if bad else "pass", cls)
+        return 1 if bad else 0
+    if "filters" in case:
+        run_reqs(s, s, [(case["steps"], [case["filters"]])], default_limit=case.get("default_limit", 5))
+    else:
+        run_histories(s, [case["steps"]])
+    hit = [x for x in s.violations if x["cls"] == cls]
+    for x in hit[:3]:
+        print("still failing:", x["cls"], x["what"], "observed:", json.dumps(common.jsonable(x["observed"]))[:300])
+    for dgr in s.disagreements[:2]:
+        print("model/implementation disagreement:", json.dumps(common.jsonable(dgr["case"]))[:300])
+    print("replay:", "FAIL" if hit else "pass", cls)
+    return 1 if hit else 0
+
+
+def write_witnesses():
+    """(development helper) write the replay files of the open findings listed in findings.d/SQLM.txt"""
+    import os
+    W = {
+        "SQLM-sql_value_contains_nul": ("sql_value_contains_nul", [step_add(ev(0, 1, 10, [["t", "a\x00b"]]))], [{"#t": ["a\x00b"]}], 100),
+        "SQLM-sql_filter_without_conditions": ("sql_filter_without_conditions", [step_add(ev(0, 1, 10))], [{}], 100),
+        "SQLM-sql_multi_filter_limit": ("sql_multi_filter_limit", [step_add(ev(0, 1, 10)), step_add(ev(0, 1, 11, content="x"))],
+                                        [{"kinds": [1], "limit": 1}, {"kinds": [7]}], 5),
+    }
+    os.makedirs(common.REPLAYS, exist_ok=True)
+    for name, (cls, steps, filters, dl) in W.items():
+        payload = {"property": "SQLM", "kind": "failing-input",
+                   "violation": {"suite": "witness", "cls": cls, "case": {"steps": steps, "filters": filters, "default_limit": dl},
+                                 "what": cls, "expected": None, "observed": None}}
+        with open(os.path.join(common.REPLAYS, name + ".json"), "w") as f:
+            json.dump(common.jsonable(payload), f, indent=1, sort_keys=True)
